@@ -200,24 +200,39 @@ ALTER = ["nothing", "ui message", "ui signature", "ui app hash", "signer message
 @obligation(tier="quick", parts=16, timeout=240,
             part_names=lambda p: "%s signer framing, altered: %s" % (["current", "legacy"][p % 2], ALTER[p // 2]),
             bounds="one item of the device's answers altered (8 choices incl. none: partition); UI message in 1..4 pages (symbolic); link "
-                   "verdicts symbolic",
+                   "verdicts symbolic; the input certificate is the onboarding one or the full certificate of an earlier attestation (symbolic); "
+                   "UD value given as plain / 0x-prefixed hex, with or without zero leading bytes (symbolic)",
             examples=[(0, dict(n=2, vu=True, vs=True, w=False)), (2, dict(n=1, vu=True, vs=True, w=False)),
                       (1, dict(n=4, vu=True, vs=False, w=True)), (14, dict(n=1, vu=True, vs=True, w=False)),
-                      (12, dict(n=3, vu=True, vs=True, w=True))])
-def ledger_certificate(n: int, vu: bool, vs: bool, w: bool) -> bool:
+                      (12, dict(n=3, vu=True, vs=True, w=True)), (0, dict(n=1, vu=True, vs=True, w=False, reatt=True, udf=2)),
+                      (1, dict(n=2, vu=True, vs=True, w=False, reatt=True, udf=1))])
+def ledger_certificate(n: int, vu: bool, vs: bool, w: bool, reatt: bool = False, udf: int = 0) -> bool:
     """
     pre: 1 <= n <= 4
+    pre: 0 <= udf <= 3
     post: _
     """
     legacy = part() % 2 == 1
     alter = part() // 2
     n = enum(n, 1, 4)
+    udf = enum(udf, 0, 3)
+    # the UD value as the operator gives it: plain hex | 0x-prefixed | 0x-prefixed with zero leading bytes | plain with zero leading bytes
+    ud_bytes = [pat(32, 5), pat(32, 5), bytes(2) + pat(30, 6), bytes(1) + pat(31, 7)][udf]
+    ud_text = ["", "0x", "0x", ""][udf] + ud_bytes.hex()
     # ---- the genuine device
     att_key = bytes([4]) + pat(64, 50)
     dev_key = bytes([4]) + pat(64, 51)
     onboarding = {"version": 1, "targets": ["attestation"], "elements": [
         {"name": "attestation", "message": (b"\xff" + att_key).hex(), "signature": "3001", "signed_by": "device"},
         {"name": "device", "message": (b"\x02\x01\x02" + dev_key).hex(), "signature": "3002", "signed_by": "root"}]}
+    if reatt:
+        # the operator passes the full certificate of an EARLIER attestation (other UD value, device state since moved on)
+        onboarding["targets"] = ["ui", "signer"]
+        onboarding["elements"] = [
+            {"name": "ui", "message": (b"HSM:UI:5.4" + pat(12, 90)).hex(), "signature": "3009", "signed_by": "attestation",
+             "tweak": pat(32, 91).hex()},
+            {"name": "signer", "message": (b"POWHSM:5.4::" + pat(9, 92)).hex(), "signature": "300a", "signed_by": "attestation",
+             "tweak": pat(32, 93).hex()}] + onboarding["elements"]
     ui_msg = list(b"HSM:UI:5.4") + page(12, 1)
     ui_sig, ui_hash = [0x30, 0x03], page(32, 2)
     sg_msg = (list(b"HSM:SIGNER:5.4") if legacy else list(b"POWHSM:5.4::")) + page(9, 3)
@@ -281,9 +296,11 @@ def ledger_certificate(n: int, vu: bool, vs: bool, w: bool) -> bool:
     la.info = lambda *a, **k: None
     la.head = lambda *a, **k: None
     sb.REAL_HEX[0] = True        # the gathered hex strings are parsed again by the certificate classes
+    opts = Options()
+    opts.attestation_ud_source = ud_text
     try:
         try:
-            la.do_attestation(Options())
+            la.do_attestation(opts)
             gathered = True
         except AdminError:
             gathered = False
@@ -302,6 +319,9 @@ def ledger_certificate(n: int, vu: bool, vs: bool, w: bool) -> bool:
     if alter_effective == 7:
         return not gathered            # message and envelope differ: gathering must fail
     if not gathered or js.saved is None:
+        return False
+    # the device was asked with exactly the operator's UD value (32 bytes), for both attestations
+    if bytes(d.ui_att["ud"] or b"") != ud_bytes or bytes(d.pw_att["ud"] or b"") != ud_bytes:
         return False
     # ---- verification half: load what was written, validate with the token algebra of C06
     cw = c06.CryptoWorld(4)
